@@ -96,6 +96,15 @@ func Generate(r *rand.Rand, profile string) *Scenario {
 		sc.Queues = append(sc.Queues, Queue{Name: fmt.Sprintf("d%d", i+1), Parent: 0, Prio: pick(100, 100, 200), GQ: pick(-1, 1000, 2000, 4000, 8000), GL: pick(-1, -1, 2000, 4000, 8000),
 			GW: pick(0, 1, 1, 2), CQ: -1, CL: -1, MQ: -1, ML: -1})
 	}
+	for i := range sc.Queues {
+		// min-runtime inherited from a department
+		if chance(0.15) {
+			sc.Queues[i].MinRtR = pick(3600, 36000)
+		}
+		if chance(0.1) {
+			sc.Queues[i].MinRtP = pick(3600, 36000)
+		}
+	}
 	parents := np
 	if threeLevel {
 		// a middle level under d1
